@@ -2,8 +2,8 @@
 //
 // asks(e, ids, k) is the set of keys evaluation may pass to find() (proved of the real solver: every find call site is
 // guarded by the precondition dm_permits).  Here: two documents that answer those keys alike get the same result, so
-// adding, removing or altering any other field cannot change a verdict.  The all()/of()-over-Matrix forms are holes of
-// the solver spec (uninterpreted functions of the document) and are excluded (frame_ok).
+// adding, removing or altering any other field cannot change a verdict.  (frame_ok only excludes malformed trees:
+// it follows the same recursion as sem3.)
 
 pub open spec fn agree(e: Expression, ids: Ids, d1: DocM, d2: DocM) -> bool {
     forall|k: Seq<char>| #[trigger] asks(e, ids, k) ==> dm_find(d1, k) == dm_find(d2, k)
@@ -18,7 +18,7 @@ pub open spec fn frame_ok(e: Expression, ids: Ids) -> bool
         Expression::BooleanGroup(_, g) => forall|i: int| 0 <= i < g.len() ==> frame_ok(#[trigger] g[i], ids),
         Expression::BooleanExpression(l, op, r) => is_cmp(op) || (frame_ok(*l, ids) && frame_ok(*r, ids)),
         Expression::Identifier(i) => ids.contains_key(i) && !has_ident(ids[i]) ==> frame_ok(ids[i], ids),
-        Expression::Match(_, x) => !(match_target(*x, ids) is Matrix) && frame_ok(*x, ids),
+        Expression::Match(_, x) => frame_ok(*x, ids),
         Expression::Negate(x) => frame_ok(*x, ids),
         _ => true,
     }
@@ -84,6 +84,40 @@ pub proof fn lemma_frame_rows(cols: Vec<String>, rows: Vec<Vec<Option<Expression
     }
 }
 
+pub proof fn lemma_frame_rows_all(cols: Vec<String>, rows: Vec<Vec<Option<Expression>>>, j: int, cache: Seq<Option<V>>, ids: Ids, d1: DocM, d2: DocM, parent: Expression)
+    requires cols_agree(cols, d1, d2), rows_defined_f(parent, rows),
+    ensures rows_all_eval(cols, rows, j, cache, ids, d1, parent) == rows_all_eval(cols, rows, j, cache, ids, d2, parent),
+    decreases rows.len() - j,
+{
+    if !(j < 0 || j >= rows.len()) {
+        assert(cells_defined_f(parent, rows[j])) by {
+            assert forall|k: int| 0 <= k < rows[j].len() && (#[trigger] rows[j][k]) is Some implies decreases_to!(parent => rows[j][k]->Some_0) && lvl(rows[j][k]->Some_0) <= lvl(parent) by {}
+        }
+        lemma_frame_row(cols, rows[j], 0, cache, ids, d1, d2, parent);
+        let (hit, c2) = row_eval(cols, rows[j], 0, cache, ids, d1, parent);
+        if hit == SolverResult::True { lemma_frame_rows_all(cols, rows, j + 1, c2, ids, d1, d2, parent); }
+    }
+}
+
+pub proof fn lemma_frame_rows_of(cols: Vec<String>, rows: Vec<Vec<Option<Expression>>>, j: int, cache: Seq<Option<V>>, hits: nat, acc: SolverResult, n: u64, ids: Ids, d1: DocM, d2: DocM, parent: Expression)
+    requires cols_agree(cols, d1, d2), rows_defined_f(parent, rows),
+    ensures rows_of_eval(cols, rows, j, cache, hits, acc, n, ids, d1, parent) == rows_of_eval(cols, rows, j, cache, hits, acc, n, ids, d2, parent),
+    decreases rows.len() - j,
+{
+    if !(j < 0 || j >= rows.len()) {
+        assert(cells_defined_f(parent, rows[j])) by {
+            assert forall|k: int| 0 <= k < rows[j].len() && (#[trigger] rows[j][k]) is Some implies decreases_to!(parent => rows[j][k]->Some_0) && lvl(rows[j][k]->Some_0) <= lvl(parent) by {}
+        }
+        lemma_frame_row(cols, rows[j], 0, cache, ids, d1, d2, parent);
+        let (hit, c2) = row_eval(cols, rows[j], 0, cache, ids, d1, parent);
+        match hit {
+            SolverResult::True => { if !(hits + 1 >= n) { lemma_frame_rows_of(cols, rows, j + 1, c2, hits + 1, acc, n, ids, d1, d2, parent); } },
+            SolverResult::False => { lemma_frame_rows_of(cols, rows, j + 1, c2, hits, SolverResult::False, n, ids, d1, d2, parent); },
+            SolverResult::Missing => { lemma_frame_rows_of(cols, rows, j + 1, c2, hits, acc, n, ids, d1, d2, parent); },
+        }
+    }
+}
+
 pub proof fn lemma_frame_defined(cols: Vec<String>, rows: Vec<Vec<Option<Expression>>>)
     ensures rows_defined_f(Expression::Matrix(cols, rows), rows),
 {
@@ -98,10 +132,10 @@ pub proof fn lemma_frame_defined(cols: Vec<String>, rows: Vec<Vec<Option<Express
     }
 }
 
-// leaves of all()/of(): a search (merged or not) on one field
+// leaves of all()/of(): a search (merged or not) on one field, or a Matrix
 pub proof fn lemma_frame_leaf(t: Expression, m: Match, ids: Ids, d1: DocM, d2: DocM)
     requires
-        agree(t, ids, d1, d2), !(t is Matrix), !(t is BooleanGroup), !(t is Identifier),
+        agree(t, ids, d1, d2), !(t is BooleanGroup), !(t is Identifier),
         sem3(t, ids, d1) == sem3(t, ids, d2),
     ensures
         sem_all_leaf(t, ids, d1) == sem_all_leaf(t, ids, d2),
@@ -111,6 +145,17 @@ pub proof fn lemma_frame_leaf(t: Expression, m: Match, ids: Ids, d1: DocM, d2: D
         Expression::Search(kind, f, cast) => {
             assert(asks(t, ids, f@));
             assert(dm_find(d1, f@) == dm_find(d2, f@));
+        },
+        Expression::Matrix(cols, rows) => {
+            assert(cols_agree(cols, d1, d2)) by {
+                assert forall|i: int| 0 <= i < cols.len() implies dm_find(d1, (#[trigger] cols[i])@) == dm_find(d2, cols[i]@) by { assert(asks(t, ids, cols[i]@)); }
+            }
+            lemma_frame_defined(cols, rows);
+            let c0 = empty_cache(cols.len() as nat);
+            lemma_frame_rows_all(cols, rows, 0, c0, ids, d1, d2, t);
+            assert forall|n: u64| #[trigger] sem_of_leaf(t, n, ids, d1) == sem_of_leaf(t, n, ids, d2) by {
+                lemma_frame_rows_of(cols, rows, 0, c0, 0, SolverResult::Missing, n, ids, d1, d2, t);
+            }
         },
         _ => {},
     }
